@@ -12,6 +12,9 @@ def specs_for(tier, colors, rng):
     specs = [f"block:{k}" for k in ks if colors ** k <= 4096] + [f"back:{k}" for k in ks[:3]]
     if colors ** 4 <= 4096:
         specs += ["block:2+block:2"]
+    # nesting over an inner macro with many colours (cache keys far beyond small numbers)
+    if colors ** 4 <= 256:
+        specs += ["block:4+block:2", "block:3+block:2", "block:2+block:3"]
     if colors ** 2 <= 64:
         specs += ["block:2+back:1", "back:1+block:2"]
     return specs if tier == "thorough" else rng.sample(specs, min(3, len(specs)))
@@ -49,7 +52,7 @@ def legal_shuffle(rng, slots, ans, block_like):
 
 
 def check(rep, tier, seed, replay):
-    progs, rng = M.base_programs(tier, seed + 16, n_rand_quick=400, n_rand_thorough=3000)
+    progs, rng = M.base_programs(tier, seed + 16, n_rand_quick=1500, n_rand_thorough=4000)
     progs = [p for p in progs if M.dims(p)[0] * M.dims(p)[1] <= 9]
     n_cycles = 60 if tier == "thorough" else 30
     runs = []
@@ -57,8 +60,29 @@ def check(rep, tier, seed, replay):
         st, co = M.dims(p)
         for spec in specs_for(tier, co, rng):
             runs.append((st, co, spec, p))
-    run_lines = [f"mrun {st} {co} {spec} {n_cycles} | {p}" for st, co, spec, p in runs]
+    # deep nesting over many inner colours: dedicated programs, long runs (colour numbers in the
+    # thousands, many distinct tapes through one converter)
+    for _ in range(6000 if tier == "thorough" else 2500):
+        st, co = rng.choice([(2, 3), (3, 3), (2, 4), (3, 2)])
+        p = core.rand_prog(rng, st, co, p_undef=rng.choice([0.0, 0.0, 0.1]))
+        spec = rng.choice(["block:4+block:2", "block:3+block:2"] if co == 3 else ["block:3+block:2", "block:2+block:2"] if co == 4
+                          else ["block:4+block:2", "block:6+block:2"])
+        runs.append((st, co, spec, p))
+    run_lines = [f"mrun {st} {co} {spec} {n_cycles * (12 if spec.count('+') and spec[6] in '346' or spec.endswith('block:3') else 1)} | {p}"
+                 for st, co, spec, p in runs]
     run_out = core.run_harness(run_lines)
+    # "every macro colour handed out decodes back to the cell contents that produced it": decode the
+    # configurations of the block-only runs and look them up, in order, on the L0 trajectory
+    from .macrosim import judge_runs
+    blk = [(l, o) for l, o in zip(run_lines, run_out) if "back" not in l.split(" ")[3]]
+    if tier != "thorough":
+        blk = blk[::10] + [x for x in blk if "+" in x[0].split(" ")[3] and x[0].split(" ")[3][6] in "346"][::2]
+    jr = judge_runs([l for l, _ in blk], [o for _, o in blk], tier=tier)
+    dec_bad = [(l, d) for l, (v, d) in jr.items() if v == "bad"]
+    for l, d in dec_bad[:10]:
+        rep.violation("oracle", {"case": l, **{k: str(v)[:300] for k, v in d.items()},
+                                 "what": "a macro colour handed out does not decode to the cells that produced it (the decoded run leaves the base trajectory)"})
+    rep.cov["block_runs_decoded_on_L0"] = len(jr)
     # ---- reference history: the run's own order
     ref_lines, ref_meta = [], []
     for (st, co, spec, p), out in zip(runs, run_out):
